@@ -10,14 +10,26 @@ Proof. exact at_most_one_accept. Qed.
 Print Assumptions c31_value_at_most_one_accept.
 
 (* once Close has returned true, every later Accept returns the error and no
-   later call returns the stream *)
-Theorem c31_closed_then_accept_fails : forall pre post w i,
-  snd (wstep (fst (wrun w pre)) Close) = RBool true ->
+   later call returns the stream (b: what the stream's own Close returned) *)
+Theorem c31_closed_then_accept_fails : forall pre post w b i,
+  snd (wstep (fst (wrun w pre)) (Close b)) = RBool true ->
   nth_error post i = Some Accept ->
-  nth_error (snd (wrun w (pre ++ Close :: post))) (length pre + 1 + i) = Some RErr
-  /\ ~ In RStream (snd (wrun (fst (wstep (fst (wrun w pre)) Close)) post)).
+  nth_error (snd (wrun w (pre ++ Close b :: post))) (length pre + 1 + i) = Some RErr
+  /\ ~ In RStream (snd (wrun (fst (wstep (fst (wrun w pre)) (Close b))) post)).
 Proof. exact closed_then_accept_fails. Qed.
 Print Assumptions c31_closed_then_accept_fails.
+
+(* fault injection: a Close call that reaches the underlying stream closes the
+   value whether the stream's Close returned nil or an error *)
+Theorem c31_close_reaching_stream_closes_value : forall w b post,
+  w_acc w = false -> w_ms w = true ->
+  snd (wstep w (Close b)) = RBool true
+  /\ w_closes (fst (wstep w (Close b))) = S (w_closes w)
+  /\ ~ In RStream (snd (wrun (fst (wstep w (Close b))) post))
+  /\ forall i, nth_error post i = Some Accept ->
+               nth_error (snd (wrun (fst (wstep w (Close b))) post)) i = Some RErr.
+Proof. exact close_reaching_stream_closes_value. Qed.
+Print Assumptions c31_close_reaching_stream_closes_value.
 
 (* a stream that was handed out is never closed by the value *)
 Theorem c31_accepted_never_closed : forall ops w,
@@ -56,7 +68,7 @@ Example c31_nonvacuous :
   let l := mk_side [1] [2] 5 in
   let sols := [mk_sol [97] [98] [] 0; mk_sol [97] [98] [2] 5; mk_sol [97] [99] [] 0] in
   let h := sol_hash (side_sid l) (mk_sol [97] [98] [] 0) in
-  exists s, sys_run l sols sys_init [Resolve h 7; Op 0 Accept; Op 0 Accept; Op 0 Close]%nat = Some s /\
+  exists s, sys_run l sols sys_init [Resolve h 7; Op 0 Accept; Op 0 Accept; Op 0 (Close false)]%nat = Some s /\
             emitted s = [(0, 0); (1, 0)]%nat /\ got s = [7%nat] /\ closed s = [].
 Proof. cbn zeta. eexists. split; [vm_compute; reflexivity|]. repeat split. Qed.
 
